@@ -313,6 +313,53 @@ def run_bounded(chk):
                 if bad:
                     fails.append((f"{klass}:{name}/s={s:g}/{pname}", {"vertices": Pn.tolist(), "faces": None if faces is None else fn,
                                                                      "scale": s, "differences": [str(b)[:300] for b in bad[:4]]}))
+    # general polyhedra with non-convex faces (extruded L and arrow), the caps' normal along each coordinate axis in turn and in a general
+    # direction, every cyclic listing of the faces: "an axis-aligned shape behaves like its rotated copy, a valid shape does not become an error"
+    perms = {"z": np.eye(3), "x": np.array([[0.0, 0, 1], [1, 0, 0], [0, 1, 0]]), "y": np.array([[0.0, 1, 0], [0, 0, 1], [1, 0, 0]]),
+             "-y": np.array([[1.0, 0, 0], [0, 0, -1], [0, 1, 0]])}
+    th_ = 0.83
+    gen = np.array([[np.cos(th_), -np.sin(th_), 0], [np.sin(th_), np.cos(th_), 0], [0, 0, 1.0]]) @ np.array([[1.0, 0, 0], [0, np.cos(1.2), -np.sin(1.2)], [0, np.sin(1.2), np.cos(1.2)]])
+    for pname in ("L", "arrow"):
+        p2 = [(float(x), float(y)) for x, y in corpus.polygons_2d()[pname]]
+        if oracle.polygon_measures_2d(p2)[0] < 0:
+            p2 = p2[::-1]
+        nn = len(p2)
+        verts = [[x, y, 0.0] for x, y in p2] + [[x, y, 1.5] for x, y in p2]
+        # the caps are kept as (non-convex) polygons: bottom listed clockwise seen from above, top counter-clockwise, sides as quads
+        faces = [list(range(nn))[::-1], [nn + i for i in range(nn)]] + [[i, (i + 1) % nn, nn + (i + 1) % nn, nn + i] for i in range(nn)]
+        P = np.asarray(verts, float)
+        size = float(np.ptp(P, axis=0).max())
+        try:
+            base = cox.shapes.Polyhedron(P, [list(f) for f in faces])
+            # (volume / surface_area / inertia_tensor of a Polyhedron need convex faces; centroid and is_inside triangulate the faces)
+            ca0 = np.asarray(base.centroid, float)
+        except Exception as e:  # noqa: BLE001
+            fails.append((f"Polyhedron:extruded_{pname}/base", {"vertices": P.tolist(), "faces": [list(map(int, f)) for f in faces], "scale": 1.0,
+                                                                 "differences": [f"('exception', '{type(e).__name__}: {e}', '')"]}))
+            continue
+        probes = np.array([P.mean(axis=0) + np.array(d_, float) * size for d_ in ([0.013, 0.021, 0.017], [0.41, 0.43, 0.37], [3, 3, 3])])
+        ia = np.asarray(base.is_inside(probes))
+        for rname, Rf in list(perms.items()) + [("general", gen)]:
+            for shift in range(0, max(len(f) for f in faces), 1 if chk.bounded_tier != "quick" else 2):
+                n_eval += 1
+                tv = np.array([0.7, -1.1, 0.4]) * size
+                Pn = P @ Rf.T + tv
+                fn = [list(f[shift % len(f):]) + list(f[:shift % len(f)]) for f in faces]
+                bad = []
+                try:
+                    g = cox.shapes.Polyhedron(Pn, fn)
+                    cb0 = np.asarray(g.centroid, float)
+                    if not np.allclose(cb0, Rf @ ca0 + tv, rtol=0, atol=1e-9 * size):
+                        bad.append(("centroid", ca0.tolist(), cb0.tolist()))
+                    ib = np.asarray(g.is_inside(probes @ Rf.T + tv))
+                    if not np.array_equal(ia, ib):
+                        bad.append(("is_inside", ia.tolist(), ib.tolist()))
+                except Exception as e:  # noqa: BLE001
+                    bad = [("exception", f"{type(e).__name__}: {e}", "")]
+                if bad:
+                    fails.append((f"Polyhedron:extruded_{pname}/caps_normal_{rname}/faces_shifted_by_{shift}", {
+                        "vertices": Pn.tolist(), "faces": fn, "scale": 1.0, "differences": [str(b)[:300] for b in bad[:4]]}))
+                    break
     # polygons
     import math
     many = {f"regular{n}": [(math.cos(2 * math.pi * k / n), math.sin(2 * math.pi * k / n)) for k in range(n)] for n in (48, 120)}
@@ -421,7 +468,7 @@ def run_bounded(chk):
     chk.bounded.append({"clause": "lengths ~ s, areas ~ s^2, volumes ~ s^3, centroids move with the shape, central inertia tensors s^5 R I R^T "
                                   "(s^4 for polygons), containment and dimensionless descriptors unchanged, F(q) -> s^3 F(R^T q s) exp(-i q.t); no errors",
                         "bound": "4 (quick) / 10 convex solids with random vertex permutations, 2 (quick) / 5 voxel solids with relabelled vertices and "
-                                 "cyclically shifted faces, 6 (quick) / 11 polygons with cyclic shifts, 7 convex polygons and spheropolygons with permuted vertices (all balls, distance_to_surface); scales {1e-3,1e-2,1,1e2,1e3} x 4 placements "
+                                 "cyclically shifted faces, 2 extruded non-convex polygons with the caps' normal along every axis and every cyclic face listing, 6 (quick) / 11 polygons with cyclic shifts, 7 convex polygons and spheropolygons with permuted vertices (all balls, distance_to_surface); scales {1e-3,1e-2,1,1e2,1e3} x 4 placements "
                                  "(2 exact rational rotations, offsets ~3 sizes)",
                         "evaluations": n_eval, "distinct_nontrivial": len(shapes), "rule": "distinct = base shapes; evaluations = transformed copies",
                         "samples": [{"shape": "voxel:U7", "scale": 0.001}], "failures": len(fails), "exhaustive": False})
